@@ -260,11 +260,37 @@ pub fn check(thorough: bool, _seed: u64) -> Check {
         classes: vec![("quartic_special_form", true)],
         bounds: json!({"degree": 4, "coefficients": "every vector in {0,1,4,-2,0.25}^5", "(a,b)": "(0.5,3), (1.5,0.25), (1e-3,7.5)", "knot": "(2,5), (0.75,0)"}),
     };
+    // exact cancellations inside the recurrence q_n = p_n, q_i = p_i - (i+1) q_(i+1): inputs built backwards from a q vector of
+    // small integers with one entry (every position in turn) exactly zero, so that an intermediate result of the library's own
+    // computation vanishes although no input coefficient does
+    let cancel = Phase {
+        name: "cancellations-inside-the-recurrence",
+        units: 8,
+        split: 1,
+        body: Box::new(move |unit, cx| {
+            let d = unit + 1; // degrees 1..8
+            let zero_at = cx.choose(d); // q_zero_at = 0 (never the leading one)
+            let pat = cx.choose(3);
+            let qv: Vec<f64> = (0..=d).map(|i| if i == zero_at { 0.0 } else { [[1.0, -2.0, 3.0], [2.0, 1.0, -1.0], [-1.0, 1.0, 2.0]][pat][i % 3] }).collect();
+            // p_i = q_i + (i+1) q_(i+1): exact in small integers
+            let p: Vec<f64> = (0..=d).map(|i| qv[i] + if i < d { (i as f64 + 1.0) * qv[i + 1] } else { 0.0 }).collect();
+            let (a, b) = [(0.5, 3.0), (2.0, 0.25)][cx.choose(2)];
+            let knot = Knot { x: 2.0, y: 5.0 };
+            cx.nontrivial();
+            cx.class(if d == 4 { 0 } else { 1 });
+            if cx.sampling() {
+                cx.sample(json!({"degree": d, "coefficients": p, "q": qv, "a": a, "b": b}));
+            }
+            by_degree!(d, leaf(&p, knot, a, b, cx))
+        }),
+        classes: vec![("quartic_special_form", true), ("generic_form", true)],
+        bounds: json!({"degrees": "1..8", "coefficients": "p_i = q_i + (i+1) q_(i+1) for q over three small-integer patterns with q_j = 0 for every j below the degree in turn", "(a,b)": "(0.5,3), (2,0.25)", "knot": "(2,5)"}),
+    };
     Check {
         id: "C09",
         rule: "choice tree: (degree, knot) resp. (degree, (a,b)) unit x coefficient vector; each leaf runs the real Log<PolyN>::integral / indefinite and evaluates the result at knot.x, a and b through its real evaluate; non-trivial = a, b (and knot.x) different from 1".into(),
         assumptions: vec!["f64::ln within 1 ulp (its rounding is propagated into the tolerance)".into()],
-        phases: vec![knots, pairs_ph, sweep, coincide],
+        phases: vec![knots, pairs_ph, sweep, coincide, cancel],
         extra: Default::default(),
         controls: vec![("oracle G reproduces the integral of ln t: t ln t - t", Box::new(|| {
             let (q, m) = exact_q(&[0.0, 1.0]);
